@@ -137,6 +137,86 @@ class Program:
                 if mm:
                     self.closure_by_type.setdefault(_closure_key(mm.group(1)), []).append(b)
         self.closures_restored = self.fix_truncated_closure_aggregates()
+        self.macro_closures_resolved = self.resolve_macro_closures()
+
+    @staticmethod
+    def _capture_count(cb):
+        texts = [cb.header] + list(cb.debug.values()) + [st_.text for bl in cb.blocks.values() for st_ in bl.stmts] + [bl.term.text for bl in cb.blocks.values() if bl.term is not None]
+        ks = [int(k) for t in texts for k in re.findall(r'\(\*?_1\)?\.(\d+):', t)] + [int(k) for t in texts for k in re.findall(r'\(_1\.(\d+):', t)]
+        return (max(ks) + 1) if ks else 0
+
+    def resolve_macro_closures(self):
+        """closures generated by one macro invocation share one source span, so `{closure@file:l:c: l:c}` names several bodies of one parent. Inside a
+        parent they are told apart statically: the capturing closures / async blocks are paired, in order, with the aggregate statements that create them
+        (rustc numbers `{closure#N}` in source order and lowers the statements in source order; the pairing is accepted only if kinds, capture names and
+        counts agree for every pair); a captureless closure passed as `const ZeroSized` is chosen by the argument types named in the callee's generics, and
+        where several remain they must be textually identical bodies. The resolved body name is appended to the type text after a NUL."""
+        from mirparse import Rvalue, Operand
+        fixed = 0
+        for body in self.bodies.values():
+            base = body.name.split('~')[0]
+            sites = {}
+            for bi in sorted(body.blocks):
+                blk = body.blocks[bi]
+                for i, s in enumerate(blk.stmts):
+                    rv = s.rvalue
+                    if s.kind == 'assign' and rv is not None and rv.kind == 'aggregate' and str(rv.args[0]).startswith(('{closure@', '{coroutine@')) and '\x00' not in str(rv.args[0]):
+                        sites.setdefault(_closure_key(rv.args[0]), []).append((bi, i, s))
+            for key, lst in sites.items():
+                cands = [b for b in (self.closure_by_type.get(key) or []) if re.fullmatch(re.escape(base) + r'::\{closure#\d+\}', b.name.split('~')[0])]
+                if len(cands) <= 1:
+                    continue
+                def num(b):
+                    return int(re.search(r'\{closure#(\d+)\}$', b.name.split('~')[0]).group(1))
+                def is_coro(b):
+                    return b.args and b.args[0][1].startswith('Pin<&mut ')
+                capturing = sorted([b for b in cands if is_coro(b) or self._capture_count(b) > 0], key=num)
+                if len(capturing) != len(lst):
+                    continue
+                okk = True
+                for (bi, i, s), b in zip(lst, capturing):
+                    rv = s.rvalue
+                    if str(rv.args[0]).startswith('{coroutine@') != bool(is_coro(b)):
+                        okk = False
+                    names = [n for (n, _) in rv.args[2]] if rv.args[1] == 'named' else []
+                    if not is_coro(b):
+                        dbg = [n for n, pl in b.debug.items() if re.search(r'\(\*?_1\)?\.\d+:|\(_1\.\d+:', pl)]
+                        if dbg and names and set(dbg) != set(names):
+                            okk = False
+                        if names and self._capture_count(b) != len(names):
+                            okk = False
+                if not okk:
+                    continue
+                for (bi, i, s), b in zip(lst, capturing):
+                    rv = s.rvalue
+                    s.rvalue = Rvalue('aggregate', (str(rv.args[0]) + '\x00' + b.name, rv.args[1], rv.args[2]))
+                    fixed += 1
+            # captureless closures handed over as constants
+            for bi in sorted(body.blocks):
+                t = body.blocks[bi].term
+                if t is None or t.kind != 'call' or not isinstance(t.func, str):
+                    continue
+                new_args = []
+                changed = False
+                for a in t.args:
+                    c = getattr(a, 'const', None)
+                    if a.kind == 'const' and c and c.startswith('ZeroSized: {closure@') and '\x00' not in c:
+                        key = _closure_key(c[11:])
+                        cands = [b for b in (self.closure_by_type.get(key) or []) if re.fullmatch(re.escape(base) + r'::\{closure#\d+\}', b.name.split('~')[0])]
+                        cands = [b for b in cands if not b.args[0][1].startswith('Pin<&mut ') and self._capture_count(b) == 0]
+                        if len(cands) > 1:
+                            def fits(b):
+                                return all(ty in t.func or (len(_last_seg(ty)) > 2 and re.search(r'\b' + re.escape(_last_seg(ty)) + r'\b', t.func)) for (_, ty) in b.args[1:])
+                            sel = [b for b in cands if fits(b)]
+                            if sel and len({repr(sorted((k, [x.text for x in v.stmts], v.term.text) for k, v in b.blocks.items())) + repr([ty for _, ty in b.args[1:]]) for b in sel}) == 1:
+                                new_args.append(Operand('const', None, c + '\x00' + sel[0].name))
+                                changed = True
+                                fixed += 1
+                                continue
+                    new_args.append(a)
+                if changed:
+                    t.args = tuple(new_args)
+        return fixed
 
     def fix_truncated_closure_aggregates(self):
         """rustc's MIR printer zips the *root* captured variables' names with the closure aggregate's operands and drops the operands beyond them
@@ -979,6 +1059,19 @@ class Interp:
             raise Unmodelled('ambiguous constant %s: %s' % (c, [b.name for b in cands][:3]))
         if len(cands) >= 1:
             return self.eval_const_body(st, cands[0])
+        sd = self.prog.crate.struct(segs[-1])
+        if sd and not sd['fields']:
+            return Agg(segs[-1], ())
+        # `Enum::<..>::Variant(const)` printed as a constant
+        mm = re.match(r'^(.*)::(\w+)\((.*)\)$', c)
+        if mm and ',' not in mm.group(3):
+            hsegs = Program._segments(strip_generics(mm.group(1)))
+            ed = self.enum_def(hsegs[-1], mm.group(2))
+            if ed:
+                for (vn, d) in ed:
+                    if vn == mm.group(2):
+                        inner = self.constant(st, fr, mm.group(3).strip()) if mm.group(3).strip() else None
+                        return Enum(_last_seg(hsegs[-1]), vn, d, (inner,) if inner is not None else ())
         raise Unmodelled('constant ' + c)
 
     def eval_const_body(self, st, b):
@@ -1095,7 +1188,7 @@ class Interp:
             v = self.read(st, cell, path)
             return self.mk_int(len(v.fields), 'usize')
         if k == 'aggregate':
-            return self.aggregate(st, fr, a[0], a[1], a[2])
+            return self.aggregate(st, fr, a[0], a[1], a[2], dest_ty)
         if k == 'shallowbox':
             return self.operand(st, fr, a[0])
         if k == 'nullop':
@@ -1113,7 +1206,7 @@ class Interp:
                 return self.mk_int(len(v.s), 'usize')
         raise Unmodelled('PtrMetadata of %r' % (x,))
 
-    def aggregate(self, st, fr, path, form, items):
+    def aggregate(self, st, fr, path, form, items, dest_ty=None):
         if path.startswith('{coroutine@') or path.startswith('{closure@'):
             vals = [self.operand(st, fr, o) for (_, o) in items] if form == 'named' else []
             if path.startswith('{coroutine@'):
@@ -1133,6 +1226,12 @@ class Interp:
         canon = strip_generics(path)
         segs = Program._segments(canon)
         last = segs[-1]
+        if len(segs) == 1 and dest_ty and not self.prog.crate.struct(last):
+            # rustc prints a variant whose name is unique in scope without its enum (`Cast { .. }`): the destination's type names the enum
+            dl = _last_seg(dest_ty)
+            ed0 = self.enum_def(dl, last) if dl and dl not in STD_ENUMS else None
+            if ed0 and any(vn == last for (vn, _) in ed0):
+                segs = [dl, last]
         if len(segs) >= 3 and segs[-2] == 'Out' and segs[-3] == '__tokio_select_util':
             # enum generated by tokio::select!: Out<_0, .., _{n-1}> { _0(_0), .., Disabled }
             vals = [self.operand(st, fr, o) for o in items] if form == 'tuple' else []
@@ -1174,6 +1273,8 @@ class Interp:
     def closure_ty(self, fr, path):
         """closures created by macros share one source span: disambiguate by the creating body (closure bodies are named
         `<creator>::{closure#N}`)"""
+        if '\x00' in path:
+            return path
         cands = self.prog.closure_by_type.get(_closure_key(path)) or []
         if len(cands) > 1 and fr is not None:
             base = fr.body.name.split('~')[0]
